@@ -12,8 +12,12 @@ class C13(PropBase):
             'cache capacity default and reduced (2-4), several PYTHONHASHSEED values; each answer compared with the pure model and a sample with a '
             'fresh process; non-trivial = a call whose key (function, arguments) occurred earlier in the same history under any spelling')
     partial_note = ('interpreter start-up state beyond module import order is not modelled; fresh-process comparison is sampled')
+    def confdir(self, ws):
+        return core.make_fs_confdir(ws)
     def cases(self, rng, ctx, tier):
         v = gen.vocab_from_ctx(ctx)
+        with_path = set(k for pc in ctx['rawd']['path_configs'] for k, _ in dict((k, vv) for k, vv in pc[1])['templates'])
+        from props.c01 import natural
         nruns, nops = (8, 350) if tier == 'quick' else (48, 900)
         ctx['runs'] = {}
         out = []
@@ -46,12 +50,48 @@ class C13(PropBase):
             items = ls.universe(rng, v, size=8)
             first_cfg = rng.choice(cfgs + [''])
             seq = [Case('path', [['s', pool[0]], first_cfg, rng.choice(['pos', 'kw'])], 'history', {'run': rid})]
+            # unchanged data for the finders: a small tree made of the concrete Sids of the pool (and a few relatives)
+            seq.append(Case('fs_reset', [], 'setup', {'run': rid}))
+            ents = []
+            for e in pool[:6]:
+                n = natural(v, e)
+                if n and n[0] in with_path and not any(g in v.alias for g in e.split('/')):
+                    ents.append(e)
+                    parts = e.split('/')
+                    if len(parts) > 3:
+                        alt = v.sid(n[0], rng).split('/')
+                        ents.append('/'.join(parts[:-2] + alt[-2:]))
+            ents = [e for e in ents if natural(v, e) and natural(v, e)[0] in with_path and not any(g in v.alias for g in e.split('/'))]
+            for e in ents:
+                seq.append(Case('w_create', ['', e, []], 'setup', {'run': rid}))
+            fs_searches = []
+            for e in ents:
+                parts = e.split('/')
+                for _ in range(2):
+                    q = list(parts)
+                    for i in range(1, len(q)):
+                        if rng.random() < 0.4:
+                            q[i] = '*'
+                    fs_searches.append('/'.join(q))
+                    fs_searches.append('/'.join(parts[:rng.randint(1, len(parts))] + ['*']))
+            fs_searches = fs_searches or ['*']
             paths = []
             for _ in range(nops):
                 s = rng.choice(pool)
                 k = rng.random()
                 m = {'run': rid}
-                if k < 0.2:
+                if k < 0.12:
+                    # long-lived Finder instances: a search left partially consumed, then full searches on the same instance,
+                    # each followed by the same search on a new instance
+                    kind, cfg = rng.choice([('all', ''), ('all', ''), ('paths', rng.choice(cfgs + ['']))])
+                    q = rng.choice(fs_searches)
+                    r_ = rng.random()
+                    if r_ < 0.4:
+                        seq.append(Case('pfind', [kind, cfg, q, str(rng.randint(0, 2))], 'history', m))
+                    else:
+                        seq.append(Case('pfind', [kind, cfg, q, 'all'], 'history', dict(m, pair='p')))
+                        seq.append(Case('find_all', [q], 'history', dict(m, pair='f')) if kind == 'all' else Case('find_paths', [cfg, q], 'history', dict(m, pair='f')))
+                elif k < 0.2:
                     seq.append(Case('obs', [['s', s]], 'history', m))
                 elif k < 0.27:
                     seq.append(Case('sid', [['x', self.sid_tree_for(rng, v, s)]], 'history', m))
@@ -71,6 +111,7 @@ class C13(PropBase):
                     seq.append(Case('consume_partial', [items, s, str(rng.randint(0, 2))], 'history', m))
                 else:
                     seq.append(Case('sid', [['f', v.fields(v.any_type(rng), rng)]], 'history', m))
+            seq.append(Case('fs_reset', [], 'setup', {'run': rid}))
             out.extend(seq)
         return out
     def sid_tree_for(self, rng, v, s):
@@ -86,7 +127,7 @@ class C13(PropBase):
         return [body, '', []]
     def phase2(self, rng, ctx, cases, impl_out, tier):
         # fresh-process sample: the same call, alone
-        idx = [i for i, c in enumerate(cases) if c.stream == 'history']
+        idx = [i for i, c in enumerate(cases) if c.stream == 'history' and c.op not in ('pfind', 'find_all', 'find_paths')]      # (the tree belongs to the history)
         sample = rng.sample(idx, min(len(idx), 6 if tier == 'quick' else 40))
         more = []
         for j, i in enumerate(sample):
@@ -99,6 +140,11 @@ class C13(PropBase):
         return None if model == impl else 'answer after history differs from the pure model'
     def oracle_bulk(self, cases, impl_out, ctx):
         fails = []
+        for i, (c, o) in enumerate(zip(cases, impl_out)):
+            if c.meta.get('pair') == 'p' and i + 1 < len(cases) and cases[i + 1].meta.get('pair') == 'f' and impl_out[i + 1] != o:
+                hist = [x.as_json() for x in cases[:i + 1] if x.meta.get('run') == c.meta.get('run') and x.op in ('pfind', 'w_create')]
+                fails.append((c, o, 'the long-lived %s finder answers %r to %r, a new instance answers %r; earlier searches on it: %r' % (
+                    c.args[0], o, c.args[2], impl_out[i + 1], [x['args'] for x in hist if x['op'] == 'pfind'][-12:])))
         for c, o in zip(cases, impl_out):
             if c.stream == 'fresh':
                 i = c.meta['of']
@@ -112,6 +158,8 @@ class C13(PropBase):
         out = []
         for d in disagreements[:25]:
             c = d['case']
+            if c['op'] in ('pfind', 'find_all', 'find_paths', 'w_create', 'fs_reset'):
+                continue
             fresh = core.run_impl(ws, [(c['op'], c['args'])])[0]
             if fresh != d['impl']:
                 rid = c['meta'].get('run')
@@ -129,6 +177,8 @@ class C13(PropBase):
         return out
     def nontrivial(self, case, impl):
         return [case.op, case.args] if case.stream == 'history' else None
+    def impl_kwargs(self, ctx):
+        return {'confdir': ctx['confdir']}
     def histogram_key(self, case, impl):
         return case.stream + ':' + case.op
 
